@@ -1,5 +1,6 @@
 From Coq Require Import Extraction ExtrOcamlBasic ZArith List.
-From LP Require Import Num C01_Model.
+From LP Require Import Num C01_Model C01_Model2.
 Extraction Language OCaml.
 Extraction "C01_m.ml" construct construct_rows locate interpolate derivative construct2 construct2_table interpolate2
+  default1 default2 call1 call2
   session_run answer_1d answer_2d ixs iN jxs jys Z.of_nat Z.to_nat.
